@@ -4,7 +4,7 @@
     [seed] any seed, [chunk] any positive literal chunk size. *)
 From Coq Require Import ZArith List Bool FMapPositive.
 From RV Require Import Model.Bytes Model.Md4 Model.Checksum Model.Delta Model.Sender
-     Proofs.BytesProofs Proofs.DeltaProofs Proofs.SenderProofs Gen.Consts.
+     Proofs.BytesProofs Proofs.DeltaProofs Proofs.TileProofs Proofs.SenderProofs Gen.Consts.
 Import ListNotations.
 Open Scope Z_scope.
 
@@ -77,6 +77,41 @@ Proof.
   rewrite tt_find_empty. apply app_nil_r.
 Qed.
 
+(** Geometry of the signature the generator produces (SumSizesSqroot) as the
+    receiver reads it back (block_len): for every basis length the blocks lie
+    inside the basis, all but the last have the full block length, they are
+    laid end to end, and the last one ends exactly at the end of the basis;
+    an empty basis has no block.  So the layouts over which [sender_exact]
+    and [receiver_exact] quantify include every layout the code generates,
+    and no byte of the basis is outside the signature. *)
+Theorem signature_blocks_tile_the_basis :
+  forall n, 0 <= n ->
+    let h := sum_sizes_sqroot n in
+    (forall i, 0 <= i < h_count h ->
+       1 <= block_len h i <= h_blen h /\ i * h_blen h + block_len h i <= n) /\
+    (forall i, 0 <= i < h_count h - 1 -> block_len h i = h_blen h) /\
+    (0 < n -> 1 <= h_count h /\
+              (h_count h - 1) * h_blen h + block_len h (h_count h - 1) = n) /\
+    (n = 0 -> h_count h = 0).
+Proof. exact sqroot_blocks_tile. Qed.
+
+(** Every block of that signature can be read back from the unchanged basis:
+    a reference to any index below the count denotes exactly [block_len]
+    bytes (receiveData's ReadAt never comes up short on an unchanged basis). *)
+Theorem signature_blocks_are_readable :
+  forall basis i,
+    let h := sum_sizes_sqroot (lenZ basis) in
+    0 <= i < h_count h ->
+    exists b, ref_bytes basis h i = Some b /\ lenZ b = block_len h i.
+Proof. exact sqroot_refs_readable. Qed.
+
+(** Non-vacuity: 1401 bytes give two full blocks of 700 and a remainder of 1;
+    490000 bytes (sqrt = 700) give exactly 700 full blocks. *)
+Example tile_example :
+  sum_sizes_sqroot 1401 = mkHead 3 700 16 1 /\ block_len (sum_sizes_sqroot 1401) 2 = 1 /\
+  sum_sizes_sqroot 490000 = mkHead 700 700 16 0 /\ sum_sizes_sqroot 1000000 = mkHead 1000 1000 16 0.
+Proof. vm_compute. repeat split; reflexivity. Qed.
+
 (** Non-vacuity: a 3-block basis (block length 2, remainder 1) with a
     duplicated block; the model sender under MD4 produces a mixed stream that
     denotes the target, and the hypotheses of [sender_exact] are met by it. *)
@@ -103,3 +138,5 @@ Print Assumptions sender_exact.
 Print Assumptions match_is_strong.
 Print Assumptions receiver_exact.
 Print Assumptions tag_table_exact.
+Print Assumptions signature_blocks_tile_the_basis.
+Print Assumptions signature_blocks_are_readable.
